@@ -475,6 +475,12 @@ def run_c17(pid, tier):
                        ([('s',), ('F', 'st/missing.css'), ('f', 'st/a.css'), ('A', 'st/none.js', 'n.js'), ('a', 'st/sub/b.js', 'b.js')], ["st/a.css", "st/sub/b.js"]),
                        ([('c', 't'), ('s',), ('G', 'st/sub/deep/c.png'), ('t', 'st', ''), ('g', 'st/sub')], ["t", "t/x.rs.html", "st", "st/sub", "st/sub/b.js"])]:
         iscen.append(tree + [('R', prog), ('R', prog)]); ineed.append(need)
+    for broken in ["@()\n@if a {\n", "@()\n<p>\n@for x in xs {\n  <li>\n", "@()\n@* never closed\n", "@(a: u8)\n@match a {\n  1 => {one}\n"]:
+        t2 = [('W', 'tt/last.rs.html', broken), ('W', 'st/a.css', 'a{}'), ('W', 'st2/b.js', 'b'), ('W', 'more/x.rs.html', '@()\nx')]
+        for prog, need in [([('c', 'tt'), ('s',), ('f', 'st/a.css'), ('g', 'st2')], ["tt", "tt/last.rs.html", "st/a.css", "st2", "st2/b.js"]),
+                           ([('c', 'tt'), ('c', 'more')], ["tt", "tt/last.rs.html", "more", "more/x.rs.html"]),
+                           ([('c', 'tt'), ('s',), ('a', 'st/a.css', 'x.css'), ('t', 'st2', 'p')], ["tt", "st/a.css", "st2"])]:
+            iscen.append(t2 + [('R', prog), ('R', prog)]); ineed.append(need)
     for need, sc, r in zip(ineed, iscen, run_scenarios_env(iscen, dict(os.environ), cwd="/")):
         key = scenario_line(sc)
         for ri, run in enumerate(r["runs"][:2]):
@@ -486,7 +492,7 @@ def run_c17(pid, tier):
                 oracle_fail.append((key, "a build script that ignores the failure of a call on a missing optional input did not complete: %s" % run["status"], None)); break
             miss = [p0 for p0 in need if not any(p0 == a or p0.startswith(a + "/") for a in rel)]
             if miss:
-                oracle_fail.append((key, "%s influenced the output of a call made after a tolerated failure on the same StaticFiles, but no cargo:rerun-if-changed line covers it in run %d (announced: %s)" % (miss[0], ri + 1, rel), None)); break
+                oracle_fail.append((key, "%s influenced the output of a call made after a tolerated failure / after a template that was rejected at its last line, but no cargo:rerun-if-changed line covers it in run %d (announced: %s)" % (miss[0], ri + 1, rel), None)); break
     for s in scen[:1]: chk.sample(dict(steps=[str(x)[:90] for x in s[-6:]]))
     chk.notes["influencing_inputs_checked"] = kinds
     chk.cov["rule"] = ("random template trees plus nested static directories and build-script programs over compile_templates, add_file, add_files, add_file_as, add_files_as (with sub-directories), add_sass_file; "
@@ -511,6 +517,8 @@ def run_c18(pid, tier):
         src = make_template(g, g.items(), rng.choice(["canon", "pert"]), tuple(uses))
         name = rng.choice(IDENTS) + rng.choice(SUFFIX)
         sib = [(rng.choice(IDENTS) + "%d" % k + rng.choice(SUFFIX), "@()\nS%d" % k) for k in range(rng.randint(1, 4))]
+        # a valid sibling whose text is full of groups that never close (`@n(`, `@n[`, `@n{` followed by plain text): state carried from one template to the next shows in the next one
+        sib += [("groups%d.rs.html" % i, "@(n: u8)\n" + "type @n( to call, @n[ to index, and @n{ " * 9 + "\n") for i in range(2)]
         # siblings whose generated names end in / begin with the generated name of this template
         sib += [(pre + name, "@()\nP%d" % k) for k, pre in enumerate(["side", "a_", "zz", "X9"])] + [(name.split(".")[0] + "_more" + "." + name.split(".", 1)[1], "@()\nQ")]
         # (a) alone (b) created after siblings (c) created before siblings (d) deep inside another tree, twice
@@ -556,6 +564,8 @@ def run_c18(pid, tier):
         sh = [('W', 't/sub/' + f, "@()\nH") for f in trio] + [('R', [('c', 't')])]
         for k, f in enumerate(trio):
             sh += ([('W', 't/sub/' + trio[k - 1], "@()\nH")] if k else []) + [('X', 't/sub/' + f), ('R', [('c', 't')])]
+        # ... and broken in place, then repaired: the declaration goes and comes back
+        sh += [('W', 't/sub/' + trio[-1], "@()\nH"), ('W', 't/sub/' + trio[0], "@(broken"), ('R', [('c', 't')]), ('W', 't/sub/' + trio[0], "@()\nH"), ('R', [('c', 't')])]
         scen += [sa, sb, sc, sd, se, sf, sg, sh]; meta.append((name, src, sib, len(scen) - 8, trio))
     rs = run_keyed(scen)
     # the same scenarios again from another cwd, with another environment and locale
@@ -572,7 +582,7 @@ def run_c18(pid, tier):
         # (h): after every run the sub-directory's module declares exactly the templates that are there now
         hr = [x for x in rs[s0 + 7]["runs"] if x["kind"] == "R"]
         for ri, run in enumerate(hr):
-            present = [f for j, f in enumerate(trio) if ri == 0 or j != ri - 1]
+            present = [f for j, f in enumerate(trio) if ri == 0 or j != ri - 1] if ri <= len(trio) else (trio[1:] if ri == len(trio) + 1 else list(trio))
             mf = snap_files(run["after"] or {}).get(b"templates/sub/mod.rs", b"")
             got = sorted(re.findall(rb"mod template_([A-Za-z0-9_]+);", mf))
             want = sorted(fn_path(f)[1].encode() for f in present)
